@@ -22,7 +22,7 @@ func handlerScope(c *Ctx) (*Roots, map[*ssa.Function]*ssa.Function, []*ssa.Funct
 
 func init() {
 	register(&propDef{
-		ID: "C01",
+		ID:      "C01",
 		Explain: "Static safety rules over every first-party function reachable (VTA call graph) from HandleMsg4/HandleMsg6 and every Handler4/Handler6-typed function: on every abstract path (branch outcomes partitioned, phis and locals resolved per path, loops to fixpoint) no nil dereference the code itself made possible (NILPATH), every nilable source is guarded (NILSRC), single-result type assertions are justified (ASSERT), indices/slices are proven in range (BOUNDS), maps written are made (MAPWRITE), no signed shift / zero division (SHIFT, DIVZERO), calls through func fields are nil-guarded (FUNCNIL), every explicit panic/Fatal/exit site is shown unreachable (PANIC), no blocking operation or unbounded loop (NOBLOCK), at most one send per datagram (SENDONCE), every lock is released on every path (LOCKPAIR) and the lock graph is acyclic (LOCKORDER). Decides the shape of first-party code; does not decide panics inside dependencies or resource exhaustion.",
 		Trusted: trustedBase,
 		Assume: []string{
